@@ -12,7 +12,7 @@ run() { # id engines expected
   local st=OK; [ "$rc" != "$want" ] && st=UNEXPECTED
   echo "$st $id engines=$eng exit=$rc expected=$want | $first" | tee -a "$OUT"
 }
-for i in 1 2 3 4 5 6 7 9 10 11 13 14 16 17 18 19 20 23 24; do run agent-$i N 1; done
+for i in 1 2 3 4 5 6 7 9 10 11 13 14 16 17 18 19 20 23 24 28; do run agent-$i N 1; done
 run own-deadlock-lock-order N 1
 run own-not-send-sync T,N 1
 for c in own-control-lazylock own-control-global-mutex control-c1 control-c2 control-c3 control-c4 control-c5 control-c6; do run $c T,N 0; done
@@ -20,4 +20,4 @@ for i in 3 8 12 15 26; do run agent-$i M 1; done
 run own-racy-regex-init M 1
 for c in own-control-lazylock control-c1 control-c2 control-c3 control-c4 control-c5 control-c6; do run $c M 0; done
 # known misses of the quick tier (expected silent; a catch here is good news and shows as UNEXPECTED)
-for i in 21 22 25 27 28 29; do run agent-$i N 0; done
+for i in 21 22 25 27 29; do run agent-$i N 0; done
